@@ -159,12 +159,36 @@ func VerifH_C17_WaitersWoken() {
 	p := newPool(time.Second)
 	ctx, cancel := context.WithCancel(context.Background())
 	defer cancel()
+	// the pool has no active peer: it is empty, or its only peer is cooling down
+	cooling := nd.Choice(2, "peerCoolingDown") == 1
+	if cooling {
+		// (the state putOnCooldown leaves behind, without arming its timer:
+		// under the model's free clock the cool-down could end at any moment
+		// and hand peerB to the waiter - legitimately)
+		p.add("peerB")
+		p.m.Lock()
+		p.statuses["peerB"] = cooldown
+		p.activeCount--
+		p.checkHasPeers()
+		p.m.Unlock()
+	}
 	ch := p.next(ctx)
 	nd.RunOthers()
 	select {
 	case <-ch:
 		nd.Assert(false, "no-peer-handed-out-from-an-empty-pool")
 	default:
+	}
+	// while the waiter is parked, operations that change nothing hit the pool
+	switch nd.Choice(3, "noopWhileWaiting") {
+	case 1:
+		p.remove("unknown")
+	case 2:
+		if cooling {
+			p.add("peerB") // re-announcing a peer that is cooling down
+		} else {
+			p.remove("peerA") // never added
+		}
 	}
 	switch nd.Choice(3, "how") {
 	case 0:
